@@ -34,7 +34,7 @@ func infoMap(r *plan.Res) map[string]string {
 
 func checkC07(e *Env) {
 	drv := e.BuildDrv(false)
-	procs := e.pick(16, 64)
+	procs := e.pick(20, 80)
 	calls := e.pick(512, 2048)
 	var mu sync.Mutex
 	obs := newCounter()
@@ -173,7 +173,12 @@ func checkC07(e *Env) {
 		if wrapper {
 			// interposer modes: plain recording, fragmented reads, a failing read
 			mode := "1"
-			switch (p / 2) % 8 {
+			m := (p / 2) % 10
+			switch m {
+			case 9:
+				mode = "failenosys:" + itoa(1+(p*3)%calls) // getrandom not implemented (errors.ErrUnsupported)
+			case 8:
+				mode = "failenoent:" + itoa(1+(p*17)%calls) // no /dev/urandom (fs.ErrNotExist)
 			case 7:
 				mode = "panicstr:" + itoa(1+(p*13)%calls) // the Nth read panics with a string value
 			case 6:
@@ -191,13 +196,14 @@ func checkC07(e *Env) {
 			}
 			env = []string{"VERIF_EARLYRAND=" + mode}
 			obs.Inc("processes_with_interposer_mode_" + strings.SplitN(mode, ":", 2)[0])
-			switch (p / 2) % 8 {
+			switch m {
 			case 0, 1, 4, 6:
 				// the modes that deliver everything also run in a hostile environment: variables a
 				// process might take for a seed file, a fixed seed or a deterministic/debug switch.
 				// What crypto/rand.Reader delivered must still determine every sentence.
-				env = append(env, hostileEnv(e, (p/16)%2)...)
-				obs.Inc("processes_with_hostile_environment_" + []string{"seed-files", "flags"}[(p/16)%2])
+				variant := map[int]int{0: 0, 1: 1, 4: 1, 6: 0}[m]
+				env = append(env, hostileEnv(e, variant)...)
+				obs.Inc("processes_with_hostile_environment_" + []string{"seed-files", "flags"}[variant])
 			}
 		}
 		ops := planFor(p, true)
